@@ -89,7 +89,10 @@ Definition opt_chk {B} (f : B -> bool) (a : option B) : bool := match a with Som
 
 Definition rect {B} (w : nat) (M : list (list B)) : bool := forallb (fun r => Nat.eqb (length r) w) M.
 
-Definition probe_ok (ns pcw tfw : nat) (rate : tok) (p : probe tok tok) : bool :=
+(* same_ns = false: the error-exit regime, every probe with its own number of samples (>= 1) *)
+Definition probe_ok (same_ns : bool) (ns0 pcw tfw : nat) (rate : tok) (p : probe tok tok) : bool :=
+  let ns := if same_ns then ns0 else tshape1 (p_tmpl p) in
+  Nat.leb 1 ns &&
   let n := length (p_cm p) in
   let m := length (p_tmpl p) in
   Nat.leb 1 n && Nat.eqb (length (p_pos p)) n && forallb (fun q => 0 <=? px q) (p_pos p) &&
@@ -103,15 +106,21 @@ Definition probe_ok (ns pcw tfw : nat) (rate : tok) (p : probe tok tok) : bool :
   match p_sim p with Some M => Nat.eqb (length M) m && rect m M | None => true end &&
   tok_eqb (pr_rate (p_par p)) rate && (0 <=? pr_ncd (p_par p)).
 
-Definition regime (unit : Z) (ps : list (probe tok tok)) : bool :=
+Definition regime (same_ns : bool) (unit : Z) (ps : list (probe tok tok)) : bool :=
   (1 <=? unit) &&
   match ps with
   | [] => false
   | p0 :: _ =>
       let ns := tshape1 (p_tmpl p0) in
       Nat.leb 1 ns &&
-      forallb (probe_ok ns (mcols (p_pc p0)) (mcols (p_tf p0)) (pr_rate (p_par p0))) ps
+      forallb (probe_ok same_ns ns (mcols (p_pc p0)) (mcols (p_tf p0)) (pr_rate (p_par p0))) ps
   end.
+
+(* the probe without its waveform samples: templates.npy of shape (n_templates, 0, n_channels).  Nothing but m_tmpl
+   depends on the samples, so merge_side of the stripped probes gives every other merged array of an input whose
+   probes disagree on n_samples (where write_templates raises before it writes anything) *)
+Definition strip_tmpl (p : probe tok tok) : probe tok tok :=
+  mkprobe (p_cm p) (p_pos p) (map (fun _ => []) (p_tmpl p)) (p_pc p) (p_tf p) (p_wm p) (p_wmi p) (p_sim p) (p_par p).
 
 (* C11's well-formedness, and SameDirs: the spike side describes the same directories *)
 Definition sprobe_ok (pp : probe tok tok * sprobe) : bool :=
@@ -135,9 +144,41 @@ Definition misc_ok (ins : list (option (list (list tok)))) (o : option (list (li
 Definition par_eqb (a b : params tok) : bool :=
   tok_eqb (pr_rate a) (pr_rate b) && (pr_ncd a =? pr_ncd b) && (pr_offset a =? pr_offset b).
 
+(* error exit (C12_assertion_exit): probes with different numbers of waveform samples.  The model is undefined; the
+   whole Merger.merge raises (ObsCrash), and on the method-by-method route write_templates raises (code 23 in
+   o_crashed) before it creates templates.npy while every other method writes what it writes otherwise.  No clause of
+   the statement covers such inputs: a deviation is a model mismatch (code 1) *)
+Definition check_exit (unit : Z) (ps : list (probe tok tok)) (sps : list sprobe) (dts : list pdt) (ob : observed) : list Z :=
+  match merge_side tzero unit ps, merge_side tzero unit (map strip_tmpl ps), C11.Model.merge sps, merged_dt dts with
+  | None, Some m, Some sm, Some mdts =>
+    match ob with
+    | ObsCrash => []
+    | ObsMerged o =>
+      let opos := match o_pos o with Some l => scale_pos unit l | None => None end in
+      flag 1 (
+        opt_eqb par_eqb (Some (m_par m)) (o_par o) &&
+        opt_eqb zlist_eqb (Some (m_map m)) (o_map o) && opt_eqb zlist_eqb (Some (m_probe m)) (o_probe o) &&
+        opt_eqb (forall2b xy_eqb) (Some (m_pos m)) opos &&
+        match o_tmpl o with None => true | Some _ => false end &&
+        opt_eqb zll_eqb (Some (m_pc m)) (o_pc o) && opt_eqb zll_eqb (Some (m_tf m)) (o_tf o) &&
+        opt_eqb tll_eqb2 (m_wm m) (o_wm o) && opt_eqb tll_eqb2 (m_wmi m) (o_wmi o) &&
+        opt_eqb tll_eqb2 (m_sim m) (o_sim o) &&
+        opt_eqb zlist_eqb (Some (C11.Model.m_times sm)) (o_stimes o) &&
+        opt_eqb zlist_eqb (Some (C11.Model.m_tmpl sm)) (o_st o) &&
+        oidt_eqb (Some (md_map mdts)) (od_map (o_dt o)) && oidt_eqb (Some (md_probe mdts)) (od_probe (o_dt o)) &&
+        ofdt_eqb (Some (md_pos mdts)) (od_pos (o_dt o)) && ofdt_eqb None (od_tmpl (o_dt o)) &&
+        oidt_eqb (Some (md_pc mdts)) (od_pc (o_dt o)) && oidt_eqb (Some (md_tf mdts)) (od_tf (o_dt o)) &&
+        ofdt_eqb (md_wm mdts) (od_wm (o_dt o)) && ofdt_eqb (md_wmi mdts) (od_wmi (o_dt o)) &&
+        ofdt_eqb (md_sim mdts) (od_sim (o_dt o)) &&
+        match o_crashed o with [23] => true | _ => false end)
+    end
+  | _, _, _, _ => [3]
+  end.
+
 Definition check (c : case) : list Z :=
   match cin c with InMerge unit ps sps dts =>
-  if negb (regime unit ps && spikes_regime ps sps && forall2b same_presence ps dts) then [3] else
+  if negb (regime false unit ps && spikes_regime ps sps && forall2b same_presence ps dts) then [3] else
+  if negb (regime true unit ps) then check_exit unit ps sps dts (cobs c) else
   match merge_side tzero unit ps, C11.Model.merge sps, merged_dt dts with
   | None, _, _ | _, None, _ | _, _, None => [3]
   | Some m, Some sm, Some mdts =>
